@@ -171,7 +171,12 @@ where
 
                 result
             }
-            ConnectionStatus::Disconnected(_) => Poll::Pending,
+            // Keep the reconnection going, as the other operations do: returning Pending without
+            // polling it leaves nobody to wake this task, and `close()` would never complete
+            ConnectionStatus::Disconnected(_) => {
+                self.poll_reconnect(cx)?;
+                Poll::Pending
+            }
             ConnectionStatus::Exhausted => Poll::Ready(Err(QuicError::TooManyRetries)?),
         }
     }
